@@ -23,13 +23,17 @@ L2 == UNION { { <<Fill("ascii", a), Fill("high", hb), mk>> :
 \* L3: a near-marker first, then a marker, then a second marker that must not be used
 L3 == { <<Fill("ascii", n), Near(m), Fill(k, 3), mk, Fill("ascii", 7), Mk("<style", "lower")>> :
           n \in {0, Window - 20, Window - 9, Window - 5}, m \in Markers, k \in Kinds, mk \in MarkFew }
+\* L3c: a look-alike made of control bytes in front of the real marker, and alone
+Ctl(m) == [k |-> "ctl", m |-> m]
+L3c == { <<Fill("ascii", n), Ctl(m), Fill("ascii", 2), mk>> : n \in {0, 9}, m \in Markers, mk \in MarkFew }
+       \cup { <<Fill("ascii", 5), Ctl(m), Fill("nul", 3)>> : m \in Markers }
 \* L4: no marker at all / only beyond the window / nothing
 L4 == { <<Fill(k, n)>> : k \in Kinds, n \in {0, 10, 20000} } \cup { <<Fill("ascii", Window + 50), mk>> : mk \in MarkFew }
       \cup { <<Near(m), Fill("nul", 4)>> : m \in Markers } \cup { <<>> }
 \* L5 (thorough): two markers around the boundary, every filler kind in front
 L5 == IF Deep THEN { <<Fill(k, n), mk, Fill(k2, d), mk2>> : k \in Kinds, k2 \in Kinds, n \in {Window - 12, Window - 6, Window - 5}, d \in {0, 1, 6},
                                                          mk \in MarkFew, mk2 \in MarkFew } ELSE {}
-Bodies == L1 \cup L2 \cup L3 \cup L4 \cup L5
+Bodies == L1 \cup L2 \cup L3 \cup L3c \cup L4 \cup L5
 
 VARIABLE cur
 Init == cur = <<[k |-> "root"]>>
